@@ -189,6 +189,15 @@ func genReaderPlan(src *choice.Src, cfg *gen.Cfg, minTasks, maxTasks, maxOps int
 		}
 		p.Tasks[t] = append(p.Tasks[t], op)
 	}
+	if nt == 1 && len(p.Tasks[0]) > 1 && src.Chance("cancel", 1, 3) {
+		// sequential histories may cancel an attached context: every later operation in that context
+		// must fail without constructing anything
+		at := 1 + src.Draw("cancel.at", len(p.Tasks[0])-1)
+		c := Op{Kind: "Cancel", Ctx: src.Draw("cancel.ctx", p.NCtx)}
+		ops := append([]Op{}, p.Tasks[0][:at]...)
+		ops = append(ops, c)
+		p.Tasks[0] = append(ops, p.Tasks[0][at:]...)
+	}
 	p.Sched = sched.Config{Seed: uint64(src.Draw("sched.seed", 1<<30)) + 1, Policy: src.Draw("sched.policy", sched.NPolicies), StepCap: 200000}
 	return p
 }
